@@ -5,6 +5,7 @@ import math
 import os
 import random
 import tempfile
+import warnings
 from fractions import Fraction as F
 
 import numpy as np
@@ -114,6 +115,57 @@ def stats_for(q, e, idx, tmp=None, periods=252):
     return js, js.statistics['strategy']
 
 
+def _panel_numbers(ts_obj, tr, tb):
+    """The numbers the tear sheet's text panel shows: {row: (strategy text, benchmark text or None)}."""
+    import matplotlib
+    matplotlib.use('Agg')
+    import matplotlib.pyplot as plt
+    fig = plt.figure()
+    try:
+        ax = fig.add_subplot(111)
+        with warnings.catch_warnings():
+            warnings.simplefilter('ignore')
+            ts_obj._plot_txt_curve(tr, bench_stats=tb, ax=ax)
+        rows = {6.9: 'total', 5.9: 'cagr', 4.9: 'sharpe', 3.9: 'sortino', 1.9: 'maxdd', 0.9: 'dur'}
+        out = {}
+        for t in ax.texts:
+            x, y = t.get_position()
+            name = rows.get(round(y, 1))
+            if name and round(x, 1) in (7.5, 10.0):
+                out.setdefault(name, [None, None])[0 if round(x, 1) == 7.5 else 1] = t.get_text()
+        return out
+    finally:
+        plt.close(fig)
+
+
+def _shown(txt):
+    return float(txt.rstrip('%'))
+
+
+def check_panel(shown, col, o, n, P, who):
+    """Every number printed in the panel column equals the statistic of that curve, to the printed precision."""
+    r = o['r']
+    want = {'total': (o['total'] * 100, 0.5), 'cagr': ((o['cum_last'] ** (float(P) / n) - 1) * 100, 0.005),
+            'maxdd': (o['maxdd'] * 100, 0.005)}
+    mx = max(abs(x) for x in r)
+    sd = pstd(r)
+    if mx > 0 and sd >= 1e-6 * mx:
+        want['sharpe'] = (math.sqrt(P) * (math.fsum(r) / n) / sd, 0.005)
+    neg = [x for x in r if x < 0]
+    if len(neg) >= 2 and pstd(neg) >= 1e-6 * max(abs(x) for x in neg):
+        want['sortino'] = (math.sqrt(P) * (math.fsum(r) / n) / pstd(neg), 0.005)
+    for name, (w, half) in want.items():
+        txt = shown[name][col]
+        g = _shown(txt)
+        if not abs(g - w) <= half + 1e-6 * max(1.0, abs(w)):
+            raise Violation('tear-sheet text panel shows %s %s = %s; the %s curve gives %r' % (who, name, txt, who, w))
+    lo, hi = o['dur']
+    g = _shown(shown['dur'][col])
+    if not lo <= g <= hi:
+        raise Violation('tear-sheet text panel shows %s drawdown duration %s; the %s curve\'s longest under-water run is %s' % (
+            who, shown['dur'][col], who, lo if lo == hi else (lo, hi)))
+
+
 def run_case(case):
     q = load()
     import qstrader.statistics.performance as perf
@@ -182,7 +234,7 @@ def run_case(case):
         r = o['r']
         mx = max(abs(x) for x in r)
         sd = pstd(r)
-        cls = [case['shape'], 'periods_%s' % P]
+        cls = [case['shape'], 'periods_%s' % P] + (['integer_equity_column'] if case.get('whole_units') else [])
         if mx > 0 and sd >= 1e-6 * mx:
             want = math.sqrt(P) * (math.fsum(r) / n) / sd
             if not close(float(s['sharpe']), want, 1e-7, 1e-6):
@@ -207,6 +259,15 @@ def run_case(case):
             # the same tearsheet object then serves the benchmark curve (as plot_results does): the strategy's results
             # must not change under our feet
             ts_obj.get_results(pd.DataFrame({'Equity': list(case['benchmark'])}, index=list(idx)))
+        if case.get('panel'):
+            tb = None
+            if case.get('benchmark'):
+                tb = ts_obj.get_results(pd.DataFrame({'Equity': list(case['benchmark'])}, index=list(idx)))
+            shown = _panel_numbers(ts_obj, tr, tb)
+            check_panel(shown, 0, o, n, P, 'strategy')
+            if tb is not None:
+                check_panel(shown, 1, oracle(case['benchmark'], idx), n, P, 'benchmark')
+            cls.append('text_panel_checked' + ('_with_benchmark' if tb is not None else ''))
         pairs = [('sharpe', float(tr['sharpe']), float(s['sharpe'])),
                  ('max_drawdown', float(tr['max_drawdown']), float(s['max_drawdown'])),
                  ('max_drawdown_pct', float(tr['max_drawdown_pct']), float(s['max_drawdown'])),
@@ -334,11 +395,16 @@ def cases(draw):
     if shape == 'nearly_flat':
         e0 = 2.5e6
     e = build_curve(draw(st.integers(0, 2 ** 31)), n, shape, e0)
+    whole = e0 >= 1e4 and draw(st.sampled_from([False, False, False, True]))
+    if whole:
+        # equity recorded in whole currency units: an integer column
+        e = [max(1, int(round(x))) for x in e]
     bench = None
     if draw(st.sampled_from([False, True])):
         bench = build_curve(draw(st.integers(0, 2 ** 31)), n, draw(st.sampled_from(SHAPES)), draw(st.sampled_from([100.0, 5e4])))
-    return {'shape': shape, 'start': [d0.year, d0.month, d0.day], 'equity': e, 'benchmark': bench,
+    return {'whole_units': whole, 'shape': shape, 'start': [d0.year, d0.month, d0.day], 'equity': e, 'benchmark': bench,
             'benchmark_lead': draw(st.sampled_from([0, 0, 5, 40])) if bench else 0,
+            'panel': draw(st.sampled_from([False, False, False, True])),
             'periods': draw(st.sampled_from([252, 252, 52, 12, 365])), 'pow2': draw(st.sampled_from([1, -3, 10, 4])),
             'scale': draw(st.sampled_from([3.7, 0.01, 1e3, 1.1, 0.37]))}
 
